@@ -925,6 +925,14 @@ def ruleDurationInterval(
 def ruleTimeDuration(
     ts: datetime, t: Time, _: RegexMatch, dur: Duration
 ) -> Optional[Interval]:
+    try:
+        return _time_duration(t, dur)
+    except (OverflowError, ValueError):
+        # the end of the interval is not a representable date
+        return None
+
+
+def _time_duration(t: Time, dur: Duration) -> Optional[Interval]:
     # Examples:
     # on the 27th for one day
     # heute eine Übernachtung
